@@ -47,9 +47,17 @@ def check(run):
         return arr
 
     cases = [(sh, "C") for sh in (RSHAPES if not quick else RSHAPES[:6])] + [((2, 3), "F"), ((3, 2), "F-view")] + ([] if quick else [((2, 2, 3), "F")])
+    # rotors need not be normalised (the Euler phases are ratios: every result is invariant under R -> lambda R): means of rotors,
+    # raw samples, integer-valued quaternions are legitimate arguments and, like every argument, must come back untouched
+    cases += [((), "C-nonunit"), ((3,), "C-nonunit"), ((2, 2), "C-nonunit")]
     for shape, layout in cases:
         for use_ws in (False, True):
             Rarr = rotors(shape)
+            if layout == "C-nonunit":
+                flat_ = Rarr.reshape(-1, 4)
+                for i in range(flat_.shape[0]):
+                    flat_[i] *= [2.0, 0.5, 3.0, 1.0 + 1e-9, 7.25][i % 5]
+                Rarr = np.ascontiguousarray(Rarr, dtype=np.float64)
             if layout == "F":
                 Rarr = np.asfortranarray(Rarr)            # e.g. a grid of rotors built from component arrays, np.array([w, x, y, z]).T
             elif layout == "F-view":
